@@ -29,15 +29,17 @@ CONFIG = dict(
                        "query_returns_whole_map", "get_prefers_local", "get_prefers_local_persists", "forward_carries_current",
                        "routing_sees_merged_map", "envelope_sees_pushed_uid", "push_to_dead_noop", "query_dead_errors",
                        "other_sessions_untouched", "statement_writes_only_its_target", "request_touches_only_its_connection",
-                       "query_keeps_dirty", "set_query_push_delivers"],
+                       "query_keeps_dirty", "set_query_push_delivers", "pending_survives_reads", "latest_write_wins",
+                       "next_request_follows_push", "write_events_are_sets_and_pushes", "handler_writes_only_its_connection",
+                       "target_stable", "maps_have_unique_keys", "dead_statements_change_nothing"],
     harness_pkg="./c10",
     mode="diff",
     reset_prefix="reset",
     runs={
-        "quick": [dict(name="main", env={"VERIF_N": "400"}, timeout=240)],
-        "thorough": [dict(name="main", env={"VERIF_N": "6000"}, timeout=1500),
-                     dict(name="seed2", env={"VERIF_N": "4000"}, seed_offset=1000, timeout=1500),
-                     dict(name="seed3", env={"VERIF_N": "4000"}, seed_offset=2000, timeout=1500)],
+        "quick": [dict(name="main", env={"VERIF_N": "1500"}, timeout=240)],
+        "thorough": [dict(name="main", env={"VERIF_N": "12000"}, timeout=1500),
+                     dict(name="seed2", env={"VERIF_N": "8000"}, seed_offset=1000, timeout=1500),
+                     dict(name="seed3", env={"VERIF_N": "8000"}, seed_offset=2000, timeout=1500)],
     },
     trivial=r"^(ok|closed|bad-op|nohandle|unguarded|n\d+|at=none resp=(err|none)|r=)?$",
     rule="op lines generated from one PRNG (VERIF_SEED): cases after `reset`; node cases (3 of 4): 2-4 connections on fronts gate-1/gate-2, most given a "
